@@ -11,7 +11,7 @@ if [ -d $BASE/repo ]; then git -C /repo worktree remove --force $BASE/repo 2>/de
 git -C /repo worktree prune
 git -C /repo worktree add -q --detach $BASE/repo HEAD || exit 3
 ( cd $BASE/repo && git apply "$PATCH" ) || { echo "PATCH DOES NOT APPLY"; exit 3; }
-rsync -a --delete --exclude '.git' --exclude 'replays/' --exclude 'coq/Cases/' /verif/ $BASE/verif/
+rsync -a --delete --exclude .git --exclude replays/ --exclude coq/Cases/ ${VERIF_SRC:-/verif}/ $BASE/verif/
 mkdir -p $BASE/verif/coq/Cases $BASE/verif/replays
 cd $BASE/verif
 grep -rl '/repo' --include=*.py --include=*.toml --include=check --include=*.sh . 2>/dev/null | grep -v target/ | xargs sed -i "s#/repo#$BASE/repo#g"
